@@ -109,7 +109,7 @@ Definition intrinsic_gas (t : otx) : option Z :=
        else Some (g1 + t_z t * TxDataZeroGas).
 
 (* stages at which TransitionDb returns a consensus error *)
-Inductive reject := RNonceLow | RNotEOA | RFunds | RBlockGas | RIntrOverflow | RIntrinsic
+Inductive reject := RNonceHigh | RNonceLow | RNotEOA | RFunds | RBlockGas | RIntrOverflow | RIntrinsic
                   | RFundsTransfer.
 
 Fixpoint apply_int (s : state) (l : list (addr * Z)) : state :=
@@ -119,13 +119,12 @@ Fixpoint apply_int (s : state) (l : list (addr * Z)) : state :=
   end.
 
 (* Finalise on a suicided state object: deleteStateObject -> keeper.RemoveAccount deletes the
-   keeper record ONLY; the object is not written back, so the balance store keeps whatever
-   b_<addr>_OLT held before the transaction *)
-Definition drop_account (pre s : state) (a : addr) : state :=
-  {| bal := match bal pre !! a with Some v => <[a := v]> (bal s) | None => delete a (bal s) end ;
-     seqs := delete a (seqs s) ; pool := pool s |}.
-Definition restore_dead (pre s : state) (l : list addr) : state :=
-  fold_left (drop_account pre) l s.
+   keeper record and writes the object's balance (zero after SELFDESTRUCT, i.e. what the EVM
+   computed) to the balance store: the balance record follows the EVM's logical state *)
+Definition drop_account (s : state) (a : addr) : state :=
+  {| bal := bal s ; seqs := delete a (seqs s) ; pool := pool s |}.
+Definition restore_dead (s : state) (l : list addr) : state :=
+  fold_left drop_account l s.
 
 (* refundGas + gasUsed: gas handed back to the sender, given what the interpreter left *)
 Definition gas_final (g : Z) (o : oracle) : Z :=
@@ -142,7 +141,8 @@ Definition transition (s : state) (e : env) (t : otx) (o : oracle)
   let g := gas_u64 t in
   let mgval := g * t_price t in
   (* preCheck *)
-  if t_nonce t <? evm_nonce s from then (inl RNonceLow, s)            (* stNonce > msgNonce *)
+  if evm_nonce s from <? t_nonce t then (inl RNonceHigh, s)           (* stNonce < msgNonce *)
+  else if t_nonce t <? evm_nonce s from then (inl RNonceLow, s)       (* stNonce > msgNonce *)
   else if e_sender_code e then (inl RNotEOA, s)
   (* buyGas *)
   else if evm_view s from <? mgval then (inl RFunds, s)
@@ -168,7 +168,7 @@ Definition transition (s : state) (e : env) (t : otx) (o : oracle)
         let gf := gas_final g o in
         let s4 := add_bal s3 from (gf * t_price t) in
         (* Apply: Finalise(true) *)
-        let s5 := if o_failed o then s4 else restore_dead s s4 (o_dead o) in
+        let s5 := if o_failed o then s4 else restore_dead s4 (o_dead o) in
         (inr (o_failed o, g - gf), s5)
     end.
 
@@ -246,14 +246,13 @@ Definition total_over (s : state) (l : list addr) : Z :=
   fold_right (fun a acc => balance s a + acc) 0 l + pool s.
 
 (* ---------- triggers of the known deviations ---------- *)
-(* a nonce above the account's: executed by preCheck (only state > msg rejects) *)
+(* a nonce above the account's: still ACCEPTED by CheckTx (validateEthTx rejects only
+   state > msg), rejected at execution by preCheck *)
 Definition nonce_gap (s : state) (t : otx) : bool := evm_nonce s (t_from t) <? t_nonce t.
 
 (* SELFDESTRUCT of an account whose balance record is non-zero before the transaction *)
 Definition selfdestruct_funded (s : state) (o : oracle) : bool :=
   negb (o_failed o) && existsb (fun a => negb (balance s a =? 0)) (o_dead o).
-Definition selfdestructs (o : oracle) : bool :=
-  negb (o_failed o) && match o_dead o with [] => false | _ => true end.
 
 (* net effect of the code's own transfers on one account *)
 Fixpoint delta_int (l : list (addr * Z)) (a : addr) : Z :=
